@@ -111,7 +111,7 @@ def gen_function(rng, i):
     for k in range(n):
         r = rng.random()
         if r < 0.12:
-            t = T_td(rng.choice(['FooCb', 'GFunc', 'GAsyncReadyCallback']))
+            t = T_td(rng.choice(['FooCb', 'GFunc', 'GAsyncReadyCallback', 'FooCb2']))
         elif r < 0.2:
             t = T_td('GDestroyNotify')
         elif r < 0.32:
@@ -182,6 +182,71 @@ DUMP = '''<?xml version="1.0"?><dump>
 </dump>'''
 
 
+def extra_direct(ck, S, ET, rng):
+    """combinations judged directly (not through the model): string and integer constants next to a returned char**, returned
+    pointers to const volatile, a destroy-notify and a callback spelled through typedefs"""
+    CV = S.TYPE_QUALIFIER_CONST | S.TYPE_QUALIFIER_VOLATILE
+    syms = world_symbols()
+    syms += [S.FS(S.CSYMBOL_TYPE_TYPEDEF, 'FooDestroy', base_type=S.td('GDestroyNotify')),
+             S.func('foo_x_strv', S.ptr(S.ptr(S.basic('char'))), [S.param('n', S.td('gint'))], line=10),
+             S.func('foo_x_gstrv', S.td('GStrv'), [], line=11),
+             S.const('FOO_X_NAME', None, const_string='a name', line=12), S.const('FOO_X_OTHER', None, const_string='', line=13),
+             S.const('FOO_X_COUNT', S.td('gint'), const_int=7, line=14),
+             S.func('foo_x_cv', S.ptr(S.FT(S.CTYPE_BASIC_TYPE, 'char', type_qualifier=CV)), [], line=15),
+             S.func('foo_x_vc', S.ptr(S.FT(S.CTYPE_TYPEDEF, 'gchar', type_qualifier=CV)), [], line=16),
+             S.func('foo_x_c', S.ptr(S.FT(S.CTYPE_BASIC_TYPE, 'char', type_qualifier=S.TYPE_QUALIFIER_CONST)), [], line=17),
+             S.func('foo_x_plain', S.ptr(S.basic('char')), [], line=18),
+             S.func('foo_x_td_destroy', S.VOID, [S.param('cb', S.td('FooCb')), S.param('user_data', S.td('gpointer')),
+                                                 S.param('notify', S.td('FooDestroy'))], line=19),
+             S.func('foo_x_td_cb', S.VOID, [S.param('cb', S.td('FooCb2')), S.param('data', S.td('gpointer'))], line=20),
+             S.func('foo_x_td_both', S.VOID, [S.param('n', S.td('gint')), S.param('cb', S.td('FooCb2')), S.param('cb_data', S.td('gpointer')),
+                                              S.param('destroy', S.td('FooDestroy'))], line=21)]
+    rng.shuffle(syms)
+    case = dict(declarations='char **foo_x_strv(gint); GStrv foo_x_gstrv(void); #define FOO_X_NAME "a name"; #define FOO_X_COUNT ((gint) 7); '
+                             'const volatile char *foo_x_cv(void); typedef GDestroyNotify FooDestroy; typedef FooCbA FooCb2; typedef FooCb FooCbA; '
+                             'void foo_x_td_destroy(FooCb cb, gpointer user_data, FooDestroy notify); void foo_x_td_cb(FooCb2 cb, gpointer data); '
+                             'void foo_x_td_both(gint n, FooCb2 cb, gpointer cb_data, FooDestroy destroy)')
+    try:
+        r = S.run(syms, includes=['GLib', 'GObject', 'Gio'], dump=ET.ElementTree(ET.fromstring(DUMP)), warnings=False)
+    except (Exception, SystemExit) as e:      # noqa
+        ck.failing_input('the scanner fails on un-annotated declarations: %r' % (e,), case)
+        return
+    ns = S.gir_ns(r.root)
+    ck.count_case(case, kind='combinations')
+    for cn, tname, ctype in (('FOO_X_NAME', 'utf8', 'gchar*'), ('FOO_X_OTHER', 'utf8', 'gchar*'), ('FOO_X_COUNT', 'gint', 'gint')):
+        el = next((x for x in ns.findall(S.CORE + 'constant') if x.get(S.CNS + 'type') == cn), None)
+        t = None if el is None else el.find(S.CORE + 'type')
+        if t is None or t.get('name') != tname or t.get(S.CNS + 'type') != ctype:
+            ck.failing_input('a constant is not typed %s with c:type %s' % (tname, ctype), dict(case, constant=cn),
+                             detail=None if t is None else t.attrib)
+    fns = {f.get(S.CNS + 'identifier'): f for f in ns.findall(S.CORE + 'function')}
+
+    def rv(name):
+        f = fns.get(name)
+        return None if f is None else f.find(S.CORE + 'return-value')
+    for name, want in (('foo_x_cv', 'none'), ('foo_x_vc', 'none'), ('foo_x_c', 'none'), ('foo_x_plain', 'full')):
+        v = rv(name)
+        if v is None or v.get('transfer-ownership') != want:
+            ck.failing_input('a returned %s string does not default to transfer %s' % ('const' if want == 'none' else 'non-const', want),
+                             dict(case, function=name), detail=None if v is None else v.attrib)
+
+    def params(name):
+        f = fns.get(name)
+        ps = None if f is None else f.find(S.CORE + 'parameters')
+        return [] if ps is None else ps.findall(S.CORE + 'parameter')
+    for name, cbi, closure, destroy in (('foo_x_td_destroy', 0, '1', '2'), ('foo_x_td_cb', 0, '1', None), ('foo_x_td_both', 1, '2', '3')):
+        ps = params(name)
+        if len(ps) <= cbi:
+            ck.failing_input('a function is missing from the GIR', dict(case, function=name))
+            continue
+        cb = ps[cbi]
+        want_scope = 'notified' if destroy else cb.get('scope')
+        if cb.get('closure') != closure or cb.get('destroy') != destroy or (destroy and cb.get('scope') != 'notified'):
+            ck.failing_input('a callback spelled through a typedef (or its typedef\'d destroy-notify) does not get its user-data as closure '
+                             'and its destroy-notify as destroy with notified scope', dict(case, function=name),
+                             detail=dict(expected=dict(closure=closure, destroy=destroy, scope=want_scope), got=cb.attrib))
+
+
 def main(tier, seed):
     ck = Check('C02', tier, seed)
     ck.assumptions += ['declarations are given as SourceSymbol trees (the C lexer cannot be built here)',
@@ -193,6 +258,8 @@ def main(tier, seed):
     import xml.etree.ElementTree as ET
     rng = random.Random(seed)
     nb = 12 if tier == 'quick' else 200
+    for _ in range(3 if tier == 'quick' else 20):
+        extra_direct(ck, S, ET, rng)
     cases = []
     for b in range(nb):
         funcs = [gen_function(rng, i) for i in range(40)]
